@@ -51,3 +51,24 @@ Definition startup (c : cfg) (st : fmap doc) (first last : N) (sv : server) (f :
       if existsb (fun vb => mem vb (f_open f) || match offs vb with None => true | Some _ => false end) vbs then OpenFailed
       else Started (flat_map (fun vb => match offs vb with Some o => [(vb, o)] | None => [] end) vbs)
   end.
+
+(* ---- a history of one read-only wrapper object around the file backend: saves that reach the wrapped backend directly
+   (another consumer of the group, or the same application through the backend it handed in), saves and clears attempted
+   through the wrapper, loads through the wrapper ---- *)
+Inductive ro_step :=
+  | RoBackendSave (dump : list (N * doc)) (dirty : list N)
+  | RoBackendClear
+  | RoSave (dump : list (N * doc)) (dirty : list N)
+  | RoLoad (vbs : list N).
+
+(* state of the wrapped backend; what every load through the wrapper returned *)
+Fixpoint ro_run (f : file) (l : list ro_step) : file * list (list (N * doc) * bool) :=
+  match l with
+  | [] => (f, [])
+  | RoBackendSave d di :: r => ro_run (file_save f d di) r
+  | RoBackendClear :: r => ro_run None r
+  | RoSave d di :: r => ro_run (ro_save f d di) r
+  | RoLoad vbs :: r => let '(f', outs) := ro_run f r in (f', file_load f vbs :: outs)
+  end.
+
+Definition through_wrapper (s : ro_step) : bool := match s with RoSave _ _ => true | _ => false end.
